@@ -51,17 +51,7 @@ class VClock:
         import pkgutil
         import sys
         import time as _time
-        # load every puresnmp module first (plug-ins are imported lazily)
-        for pkgname in ("puresnmp", "puresnmp.api", "puresnmp.plugins", "puresnmp_plugins.mpm", "puresnmp_plugins.security",
-                        "puresnmp_plugins.auth", "puresnmp_plugins.priv"):
-            pkg = importlib.import_module(pkgname)
-            for info in pkgutil.iter_modules(pkg.__path__, pkgname + "."):
-                if "verifstream" in info.name or info.name.endswith("__main__"):
-                    continue
-                try:
-                    importlib.import_module(info.name)
-                except Exception:  # noqa: BLE001
-                    pass
+        C.import_all_puresnmp()
         originals = [_time.time, _time.monotonic, _time.perf_counter]
         clock = self
 
